@@ -4,6 +4,7 @@ import (
 	"fmt"
 	"math"
 	"strconv"
+	"strings"
 )
 
 // Grammar-directed generator of (template AST, data) pairs.
@@ -27,11 +28,14 @@ type Profile struct {
 	Includes   bool
 	Faults     bool // enumerate fault positions
 	CondHist   bool // conditions preceded by other conditions (also on missing fields)
+	LongVals   int  // per cent of cases in which one text variable is long (tens to thousands of bytes)
 }
 
 type scopeVar struct {
 	Name string
 	Kind string // int uint float bool string bytes hist(struct) key
+	Idx  bool   // variable of a counting loop that stays within the history's indices: usable as History[i]
+	// (outside them the generated inspector hands out the slice itself or panics: external)
 }
 
 type Gen struct {
@@ -48,6 +52,8 @@ type Gen struct {
 	noBreak  bool
 	past     []string // variables of counter loops that have ended (still readable afterwards)
 	lastCtx, lastCtxKind string // the most recent {% ctx %} variable and the kind of its source
+	longPath             string // path of the long text value of this case's data, if there is one
+	longLen              int
 	inRegion int
 }
 
@@ -119,6 +125,52 @@ func (g *Gen) genData() {
 		}
 		d.Statics = append(d.Statics, v)
 	}
+	if g.p.LongVals > 0 && r.Chance(g.p.LongVals) {
+		n := []int{12, 40, 70, 130, 300, 1100, 4097, 5000}[r.Intn(8)]
+		if g.p.Regions && r.Bool() {
+			n = []int{4097, 5000, 4200}[r.Intn(3)] // beyond the scratch sizes the bound tags work with
+		}
+		lt := longText(n)
+		g.tag(fmt.Sprintf("data:long-text=%d", n))
+		g.longLen = n
+		switch r.Intn(4) {
+		case 0:
+			u.Id, g.longPath = string(lt), "user.Id"
+		case 1:
+			u.Name, g.longPath = lt, "user.Name"
+		case 2:
+			if len(u.History) > 0 && u.HasFinance {
+				k := r.Intn(len(u.History))
+				u.History[k].Comment, g.longPath = lt, fmt.Sprintf("user.Finance.History.%d.Comment", k)
+			} else {
+				u.Name, g.longPath = lt, "user.Name"
+			}
+		default:
+			for i := range d.Statics {
+				switch d.Statics[i].Kind {
+				case "string", "bytes", "setbytes", "setstring":
+					if g.longPath == "" {
+						d.Statics[i].S, g.longPath = lt, d.Statics[i].Name
+					}
+				}
+			}
+			if g.longPath == "" {
+				u.Id, g.longPath = string(lt), "user.Id"
+			}
+		}
+		if !u.Present {
+			u.Present = true
+		}
+	}
+	if g.p.W["rloop"] > 0 && u.HasFinance && r.Chance(2) {
+		// a collection beyond 256 elements
+		rows := []int{256, 257, 300}[r.Intn(3)]
+		for len(u.History) < rows {
+			k := len(u.History)
+			u.History = append(u.History, HistRow{DateUnix: 1500000000 + int64(k), Cost: niceFloats[k%len(niceFloats)], Comment: []byte(strs[k%len(strs)])})
+		}
+		g.tag(fmt.Sprintf("data:history-rows=%d", rows))
+	}
 	g.data = d
 	// float literal table: every float value of the data by its text
 	add := func(f float64) { g.flits[floatText(f)] = f }
@@ -175,6 +227,15 @@ func (g *Gen) scalarOperands() []operand {
 					operand{Path: fmt.Sprintf("user.Finance.History.%d.DateUnix", i), Kind: "int", I: h.DateUnix},
 					operand{Path: fmt.Sprintf("user.Finance.History.%d.Comment", i), Kind: "bytes", S: h.Comment})
 			}
+			// inside a counting loop the elements may be addressed through the loop variable:
+			// History[i].Cost (the value depends on the iteration; literals near element 0)
+			if iv := g.innerCounter(); iv != "" && len(u.History) > 0 {
+				h := u.History[0]
+				ops = append(ops,
+					operand{Path: fmt.Sprintf("user.Finance.History[%s].Cost", iv), Kind: "float", F: h.Cost},
+					operand{Path: fmt.Sprintf("user.Finance.History[%s].DateUnix", iv), Kind: "int", I: h.DateUnix},
+					operand{Path: fmt.Sprintf("user.Finance.History[%s].Comment", iv), Kind: "bytes", S: h.Comment})
+			}
 		} else {
 			ops = append(ops, operand{Path: "user.Finance.Balance", Kind: "nilptr"})
 		}
@@ -215,6 +276,16 @@ func (g *Gen) scalarOperands() []operand {
 		ops = append(ops, o)
 	}
 	return ops
+}
+
+// innerCounter names the variable of the innermost enclosing counting loop, if any.
+func (g *Gen) innerCounter() string {
+	for i := len(g.scope) - 1; i >= 0; i-- {
+		if g.scope[i].Idx {
+			return g.scope[i].Name
+		}
+	}
+	return ""
 }
 
 func (g *Gen) pickOperand(kinds ...string) (operand, bool) {
@@ -285,12 +356,38 @@ func (g *Gen) genText(multi bool) []byte {
 
 // cutFmtDoc is the documented removal of formatting: every line break together with the
 // indentation (white space) that follows it.
+// (white space as the clean-up expression reads it: RE2 \s is [\t\n\f\r ], a vertical tab is kept)
+// litText is the value as it may be written between quotes in a tag: long values and values with
+// operator or quote characters are replaced (the tag grammar cannot carry them).
+func litText(b []byte) string {
+	if len(b) > 16 || strings.ContainsAny(string(b), "<>=!\"'{}%|") {
+		return "abc"
+	}
+	return string(b)
+}
+
+// longText builds a value of n bytes that every escaper has to work on: markup, an ampersand,
+// multi-byte characters, spaces and URL punctuation (no quotes: see litText).
+func longText(n int) []byte {
+	unit := "Lorem <b>ipsum</b> & dolor \u00e9/sit?amet=1 \u0416;"
+	var b []byte
+	for len(b) < n {
+		b = append(b, unit...)
+	}
+	b = b[:n]
+	// never cut a multi-byte character
+	for len(b) > 0 && b[len(b)-1] >= 0x80 {
+		b = b[:len(b)-1]
+	}
+	return b
+}
+
 func cutFmtDoc(t []byte) []byte {
 	var out []byte
 	for i := 0; i < len(t); i++ {
 		if t[i] == '\n' {
 			j := i
-			for j < len(t) && (t[j] == '\n' || t[j] == '\t' || t[j] == ' ' || t[j] == '\r' || t[j] == '\f' || t[j] == '\v') {
+			for j < len(t) && (t[j] == '\n' || t[j] == '\t' || t[j] == ' ' || t[j] == '\r' || t[j] == '\f') {
 				j++
 			}
 			i = j - 1
@@ -552,10 +649,10 @@ func (g *Gen) genCond() *ACond {
 		g.flits[lit] = v
 	case "string":
 		c.Op = cmpOps[r.Intn(6)]
-		cands := []string{string(o.S), "abc", "b", "a", "John", "zz top", "Abd"}
+		cands := []string{litText(o.S), "abc", "b", "a", "John", "zz top", "Abd"}
 		lit = cands[r.Intn(len(cands))]
 		if r.Chance(50) {
-			lit = string(o.S)
+			lit = litText(o.S)
 		}
 		quote = []string{`"`, `'`}[r.Intn(2)]
 		if lit == "" {
@@ -563,7 +660,7 @@ func (g *Gen) genCond() *ACond {
 		}
 	case "bytes":
 		c.Op = cmpOps[r.Intn(2)]
-		lit = string(o.S)
+		lit = litText(o.S)
 		if r.Chance(40) || lit == "" {
 			lit = "abc"
 		}
@@ -580,6 +677,15 @@ func (g *Gen) genCond() *ACond {
 		g.tag("cond:lit-var")
 	case 2, 3: // var op var
 		o2, ok := g.pickOperand(o.Kind)
+		if iv := g.innerCounter(); iv != "" && r.Chance(50) {
+			// the right-hand side addressed through the loop variable
+			for _, cand := range g.scalarOperands() {
+				if cand.Kind == o.Kind && strings.Contains(cand.Path, "["+iv+"]") {
+					o2, ok = cand, true
+					g.tag("cond:right-bracket-index")
+				}
+			}
+		}
 		if ok && (o.Kind != "bytes") && (o.Kind != "bool") && len(o2.text()) > 0 && !(o.W32 && (o2.I > math.MaxInt32 || o2.I < math.MinInt32)) {
 			c.R = o2.Path
 			g.tag("cond:var-var")
@@ -730,7 +836,7 @@ func (g *Gen) genItem(depth int) *Ast {
 						}
 						c.Cond.L = fmt.Sprint(v)
 					default:
-						c.Cond.L = []string{string(o.S), "abc", "a"}[r.Intn(3)]
+						c.Cond.L = []string{litText(o.S), "abc", "a"}[r.Intn(3)]
 						if c.Cond.L == "" {
 							c.Cond.L = "a"
 						}
@@ -747,8 +853,18 @@ func (g *Gen) genItem(depth int) *Ast {
 			}
 		}
 		if a.SwArg == "" {
+			helpers := r.Chance(30) // every case a condition helper, each on its own argument
 			for i := 0; i < n; i++ {
 				c := ACase{Cond: *g.genCond()}
+				if helpers {
+					if o, ok := g.pickOperand("string", "bytes"); ok {
+						c.Cond = ACond{Helper: []string{"lenEq0", "lenGt0", "lenGtq0"}[r.Intn(3)], HArg: o.Path}
+						if i > 0 && r.Chance(50) {
+							c.Cond.Helper = a.Cases[0].Cond.Helper // the same helper, another argument
+						}
+						g.tag("switch:free-helpers")
+					}
+				}
 				if c.Cond.Helper == "len" || c.Cond.Helper == "cap" {
 					c.Cond = ACond{L: "nosuch.X", Op: "==", R: "1", RLit: true}
 				}
@@ -814,7 +930,7 @@ func (g *Gen) genItem(depth int) *Ast {
 			c := &ACond{L: path, Op: op, RLit: true}
 			switch o.Kind {
 			case "string", "bytes":
-				cands := []string{string(o.S), "2", "abc", "A", "b", "zz", string(o.S) + "0"}
+				cands := []string{litText(o.S), "2", "abc", "A", "b", "zz", litText(o.S) + "0"}
 				c.R, c.RQuote = cands[r.Intn(len(cands))], `"`
 				if c.R == "" {
 					c.R = "a"
@@ -952,7 +1068,22 @@ func (g *Gen) loopCombos(body []*Ast, depth int) []*Ast {
 		}
 		return a
 	}
-	switch r.Intn(6) {
+	switch r.Intn(7) {
+	case 6:
+		// a small depth pending (lazybreak 1), then a sibling loop that leaves with a larger one
+		if g.loopD < 2 || depth >= g.p.MaxDepth {
+			return body
+		}
+		g.tag("combo:lazy1-sibling-break-deeper")
+		inner := &Ast{K: "cloop", Var: g.newVar("i"), Init: "0", InitLit: true, Op: "<", Lim: "3", LimLit: true, Step: "++"}
+		inner.Body = []*Ast{{K: "text", Text: g.marker()}, {K: "print", Path: inner.Var}, {K: []string{"break", "lazybreak"}[r.Intn(2)], N: 3 + r.Intn(2), Cond: &ACond{L: inner.Var, Op: "==", R: fmt.Sprint(r.Intn(2)), RLit: true}}, {K: "text", Text: g.marker()}}
+		if r.Chance(40) {
+			inner = &Ast{K: "rloop", Var: g.newVar("v"), Src: "user.Finance.History", Body: []*Ast{{K: "text", Text: g.marker()}, {K: []string{"break", "lazybreak"}[r.Intn(2)], N: 3}, {K: "text", Text: g.marker()}}}
+		}
+		if g.budget < 6 {
+			g.budget = 6
+		}
+		return append(body, &Ast{K: "lazybreak", N: 1}, &Ast{K: "text", Text: g.marker()}, inner, &Ast{K: "text", Text: g.marker()})
 	case 5:
 		// lazybreak N, then a sibling range loop that has nothing to iterate over (absent variable,
 		// absent field), with or without an else branch
@@ -1028,6 +1159,8 @@ func (g *Gen) genCLoop(depth int) *Ast {
 	if start < 0 {
 		g.tag("cloop:negative-literal")
 	}
+	lo := start // the smallest value the variable takes inside the body
+	hi := start + int64(n) // and an upper bound of the largest
 	if up {
 		a.Step = "++"
 		a.Init = fmt.Sprint(start)
@@ -1085,6 +1218,8 @@ func (g *Gen) genCLoop(depth int) *Ast {
 		case 1:
 			a.Init, a.InitLit = mkVar(a.Init, -4), false
 			a.Lim, a.LimLit = mkVar(a.Lim, -4), false
+			lo -= 4
+			hi -= 4
 			g.tag("cloop:below-zero")
 		default:
 			a.Lim, a.LimLit = mkVar(a.Lim, 0), false
@@ -1103,11 +1238,43 @@ func (g *Gen) genCLoop(depth int) *Ast {
 		a.Sep = []string{",", ";", "|", "-", ", ."}[r.Intn(5)]
 		a.SepKw = []string{"separator", "sep"}[r.Intn(2)]
 	}
-	g.scope = append(g.scope, scopeVar{a.Var, "int"})
+	g.scope = append(g.scope, scopeVar{Name: a.Var, Kind: "int", Idx: lo >= 0 && hi < int64(len(g.data.User.History))})
 	g.loopD++
 	a.Body = append([]*Ast{{K: "text", Text: g.marker()}}, g.genItems(depth+1, g.small())...)
 	if r.Chance(50) {
 		a.Body = append(a.Body, &Ast{K: "print", Path: a.Var})
+	}
+	if g.scope[len(g.scope)-1].Idx && r.Chance(60) {
+		// elements addressed through the loop variable: printed, and on either side of a condition
+		fld := []struct {
+			name, kind string
+		}{{"Cost", "float"}, {"DateUnix", "int"}, {"Comment", "bytes"}}[r.Intn(3)]
+		path := fmt.Sprintf("user.Finance.History[%s].%s", a.Var, fld.name)
+		g.tag("cloop:bracket-index")
+		if r.Chance(35) {
+			a.Body = append(a.Body, &Ast{K: "print", Path: path})
+		} else {
+			c := &ACond{L: path, Op: cmpOps[r.Intn(2)], FloatL: fld.kind == "float"}
+			if fld.kind != "bytes" {
+				c.Op = cmpOps[r.Intn(6)]
+			}
+			other, ok := g.pickOperand(fld.kind)
+			switch {
+			case ok && r.Chance(70) && other.Path != path:
+				c.R = other.Path
+				if fld.kind != "bytes" && r.Bool() {
+					c.L, c.R = c.R, c.L // the index on the right-hand side
+				}
+				g.tag("cond:right-bracket-index")
+			case fld.kind == "float":
+				c.R, c.RLit = floatText(g.data.User.History[0].Cost), true
+			case fld.kind == "int":
+				c.R, c.RLit = fmt.Sprint(g.data.User.History[0].DateUnix), true
+			default:
+				c.R, c.RLit, c.RQuote = "abc", true, `"`
+			}
+			a.Body = append(a.Body, &Ast{K: "if", Cond: c, Then: []*Ast{{K: "text", Text: g.marker()}}, HasElse: true, Else: []*Ast{{K: "text", Text: g.marker()}}})
+		}
 	}
 	a.Body = g.loopCombos(a.Body, depth+1)
 	g.loopD--
@@ -1177,11 +1344,11 @@ func (g *Gen) genRLoop(depth int) *Ast {
 	}
 	n := 0
 	if a.Key != "" {
-		g.scope = append(g.scope, scopeVar{a.Key, "key"})
+		g.scope = append(g.scope, scopeVar{Name: a.Key, Kind: "key"})
 		n++
 	}
 	if a.Var != "" && kind != "none" {
-		g.scope = append(g.scope, scopeVar{a.Var, kind})
+		g.scope = append(g.scope, scopeVar{Name: a.Var, Kind: kind})
 		n++
 	}
 	g.loopD++
